@@ -91,7 +91,32 @@ pub fn num(ty: &str, b: &[u8]) -> String {
             }
         }};
     }
-    let ok = match ty {
+    // to_len succeeds exactly when this width is the minimal compact-size width of the value
+    let tolen_ok = match (ty, want) {
+        ("u16", Some(n)) => {
+            let x: U16 = (n as u16).into();
+            match x.to_len() {
+                Ok(l) => n >= 0xFD && l.n() == n && l.consumed() == 3,
+                Err(e) => n < 0xFD && e == Error::NonMinimalVarInt,
+            }
+        }
+        ("u32", Some(n)) => {
+            let x: U32 = (n as u32).into();
+            match x.to_len() {
+                Ok(l) => n > 0xFFFF && l.n() == n && l.consumed() == 5,
+                Err(e) => n <= 0xFFFF && e == Error::NonMinimalVarInt,
+            }
+        }
+        ("u64", Some(n)) => {
+            let x: U64 = n.into();
+            match x.to_len() {
+                Ok(l) => n > 0xFFFF_FFFF && l.n() == n && l.consumed() == 9,
+                Err(e) => n <= 0xFFFF_FFFF && e == Error::NonMinimalVarInt,
+            }
+        }
+        _ => true,
+    };
+    let ok = tolen_ok && match ty {
         "u8" => chk!(U8, u8, read_u8),
         "u16" => chk!(U16, u16, read_u16),
         "u32" => chk!(U32, u32, read_u32),
@@ -169,28 +194,48 @@ pub fn self_consistency<'a, T: Ty<'a>>(
         }
         _ => return "FAIL:reparse-fails".into(),
     }
-    // independence from the bytes after k: same view followed by different bytes, in other memory
-    let mut other: Vec<u8> = view.to_vec();
-    other.extend_from_slice(&[0xff, 0x00, 0x01, 0xfd, 0x02]);
-    let other = leak(other);
-    let ok = {
-        let other: &'a [u8] = unsafe { &*(other as *const [u8]) };
-        let ob = B::of(other);
-        let mut rec = Rec::new(ob, None);
-        match pc(|| T::run(other, n, &mut rec)) {
-            Ok(Ok(pr2)) => {
-                pr2.consumed() == k
-                    && pr2.remaining() == &[0xff, 0x00, 0x01, 0xfd, 0x02]
-                    && T::f(&ob, pr2.parsed()) == T::f(&bb, pr.parsed())
-                    && rec.evs == evs
-                    && pr2.parsed().as_ref() == view
+    "ok".into()
+}
+
+
+/// C02: parsing never looks at, or depends on, bytes beyond the k consumed: the same k bytes followed by other bytes
+/// (and by nothing), in other memory, give the same object, the same callbacks and leave exactly what followed
+pub fn suffix_independence<'a, T: Ty<'a>>(
+    b: &'a [u8],
+    n: usize,
+    r: &Result<&ParseResult<'a, T>, Error>,
+    evs: &[String],
+) -> String {
+    let Ok(pr) = r else { return "na".into() };
+    let k = pr.consumed();
+    if k > b.len() {
+        return "FAIL:consumed-beyond-input".into();
+    }
+    let bb = B::of(b);
+    let view: &[u8] = &b[..k];
+    for junk in [&[0xffu8, 0x00, 0x01, 0xfd, 0x02][..], &[][..], &[0x00; 70][..]] {
+        let mut other: Vec<u8> = view.to_vec();
+        other.extend_from_slice(junk);
+        let other = leak(other);
+        let ok = {
+            let other: &'a [u8] = unsafe { &*(other as *const [u8]) };
+            let ob = B::of(other);
+            let mut rec = Rec::new(ob, None);
+            match pc(|| T::run(other, n, &mut rec)) {
+                Ok(Ok(pr2)) => {
+                    pr2.consumed() == k
+                        && pr2.remaining() == junk
+                        && T::f(&ob, pr2.parsed()) == T::f(&bb, pr.parsed())
+                        && rec.evs == evs
+                        && pr2.parsed().as_ref() == view
+                }
+                _ => false,
             }
-            _ => false,
+        };
+        unleak(other);
+        if !ok {
+            return format!("FAIL:depends-on-suffix(len {})", junk.len());
         }
-    };
-    unleak(other);
-    if !ok {
-        return "FAIL:depends-on-suffix".into();
     }
     "ok".into()
 }
@@ -866,8 +911,32 @@ pub fn redb_line(ctx: &Ctx, ty: &str, b: &[u8]) -> String {
         "outpoint" => rt!(bsl::OutPoint, bsl::OutPoint::parse(b), fmt::outpoint_f, Some(36), "op"),
         "txout" => rt!(bsl::TxOut, bsl::TxOut::parse(b), fmt::txout_f, None, "txout"),
         "txouts" => rt!(bsl::TxOuts, bsl::TxOuts::parse(b), fmt::txouts_f, None, "txouts"),
-        "tx" => rt!(bsl::Transaction, bsl::Transaction::parse(b), fmt::tx_f, None, "tx"),
+        "tx" => rt!(bsl::Transaction, bsl::Transaction::parse(b), fmt::tx_fh, None, "tx"),
         _ => "bad-op".into(),
+    }
+}
+
+/// `from_bytes` on stored bytes directly (output lists: only the count is re-read, so huge lists are cheap)
+pub fn redbraw_line(ctx: &Ctx, b: &[u8]) -> String {
+    use bitcoin_slices::redb::RedbValue;
+    let bb = B::of(b);
+    match pc(|| <bsl::TxOuts as RedbValue>::from_bytes(b)) {
+        Ok(o) => {
+            let line = format!("redbraw r=ok n={} v={}", o.n(), bb.sl(o.as_ref()));
+            if ctx.oracles {
+                // equal to what parsing the same bytes gives, when they parse
+                let v = match bsl::TxOuts::parse(b) {
+                    Ok(pr) if pr.remaining().is_empty() => {
+                        if *pr.parsed() == o { "ok" } else { "FAIL:from_bytes(as_bytes(x))!=x" }
+                    }
+                    _ => "na",
+                };
+                format!("{} #redb={}", line, v)
+            } else {
+                line
+            }
+        }
+        Err(_) => "redbraw r=panic".into(),
     }
 }
 
@@ -898,14 +967,17 @@ pub fn cins_line(ctx: &mut Ctx, k: u64, v: &[u8]) -> String {
     }
     let st: &mut CacheSt = &mut ctx.cache;
     let mut fails: Vec<String> = vec![];
-    let live_key = |st: &CacheSt, key: u64| st.log[st.live_from..].iter().any(|(x, _)| *x == key);
+    // the reference log is kept from OBSERVATIONS (what get returns), never from the returned count, so that a
+    // wrong count is reported as C13 only
+    let was_retrievable = before.iter().any(|(x, g)| *x == k && g.is_some());
+    let live_before = st.log.len() - st.live_from;
     let s_before: usize = st.log[st.live_from..].iter().map(|(_, x)| x.len()).sum();
+    let mut inserted_ok = false;
     match &r {
-        Err(_) => fails.push("panic".into()),
+        Err(_) => fails.push("C06:panic".into()),
         Ok(Err(_)) => {
             // C13: the right error, and nothing changes
-            let present = live_key(st, k);
-            let want = if present {
+            let want = if was_retrievable {
                 "present"
             } else if v.len() > st.cap {
                 "toolarge"
@@ -913,7 +985,7 @@ pub fn cins_line(ctx: &mut Ctx, k: u64, v: &[u8]) -> String {
                 "none"
             };
             // when both apply either error is accepted (the property names both)
-            if !(rs == want || (present && v.len() > st.cap && rs == "toolarge")) {
+            if !(rs == want || (was_retrievable && v.len() > st.cap && rs == "toolarge")) {
                 fails.push(format!("C13:error-is-{}-expected-{}", rs, want));
             }
             let after: Vec<(u64, Option<Vec<u8>>)> = st.keys.iter().map(|x| (*x, st.cache.get(x).map(|s| s.to_vec()))).collect();
@@ -921,8 +993,8 @@ pub fn cins_line(ctx: &mut Ctx, k: u64, v: &[u8]) -> String {
                 fails.push("C13:failed-insert-changed-state".into());
             }
         }
-        Ok(Ok(n)) => {
-            if live_key(st, k) {
+        Ok(Ok(_)) => {
+            if was_retrievable {
                 fails.push("C13:present-key-accepted".into());
             }
             if v.len() > st.cap {
@@ -930,57 +1002,66 @@ pub fn cins_line(ctx: &mut Ctx, k: u64, v: &[u8]) -> String {
             }
             st.lmax = st.lmax.max(v.len());
             st.log.push((k, v.to_vec()));
-            let live_now = st.log.len() - 1 - st.live_from; // previously retrievable
-            if *n > live_now {
-                fails.push("C13:count-exceeds-live".into());
-                st.live_from = st.log.len() - 1;
-            } else {
-                st.live_from += *n;
-            }
+            inserted_ok = true;
             // C06 read-your-write: the inserted key returns the inserted bytes immediately
             if pc(|| st.cache.get(&k).map(|s| s.to_vec())) != Ok(Some(v.to_vec())) {
                 fails.push(format!("C06:read-your-write-key{}", k));
             }
-            if *n > 0 {
-                st.ever_evicted = true;
-                // C12 pressure
-                if !(s_before + v.len() > st.cap.saturating_sub(st.lmax.saturating_sub(1))) {
-                    fails.push(format!("C12:evicted-without-pressure(S={},x={},L={})", s_before, v.len(), st.lmax));
-                }
-            }
         }
     }
-    // after every operation, over every key ever used
+    // after every operation, over every key ever used: which log entries are live (observed)
+    let n_log = st.log.len();
+    let mut live: Vec<bool> = vec![false; n_log];
     let mut retrievable = 0usize;
     for key in st.keys.clone() {
         let got = pc(|| st.cache.get(&key).map(|s| s.to_vec()));
         let Ok(got) = got else {
-            fails.push("get-panics".into());
+            fails.push("C06:get-panics".into());
             continue;
         };
-        let want = st.log[st.live_from..].iter().rev().find(|(x, _)| *x == key).map(|(_, val)| val.clone());
-        if got.is_some() {
+        let latest = st.log.iter().enumerate().rev().find(|(_, (x, _))| *x == key);
+        if let Some(g) = &got {
             retrievable += 1;
-        }
-        if got != want {
-            // distinguish the property that is hit
-            match (&got, &want) {
-                (Some(_), Some(_)) => fails.push(format!("C06:key{}-returns-other-bytes", key)),
-                (Some(g), None) => {
-                    let latest = st.log.iter().rev().find(|(x, _)| *x == key).map(|(_, val)| val);
-                    if latest == Some(g) {
-                        fails.push(format!("C11:key{}-retrievable-but-older-than-an-evicted-entry-or-count-wrong", key));
-                    } else {
-                        fails.push(format!("C06:key{}-returns-other-bytes", key));
-                    }
+            match latest {
+                Some((i, (_, val))) if val == g => live[i] = true,
+                Some((i, _)) => {
+                    live[i] = true;
+                    fails.push(format!("C06:key{}-returns-other-bytes-than-its-latest-insertion", key));
                 }
-                (None, Some(_)) => fails.push(format!("C11:key{}-missing-from-the-live-suffix(or C06 read-your-write / C13 count)", key)),
-                _ => {}
+                None => fails.push(format!("C06:key{}-returns-bytes-but-was-never-inserted", key)),
             }
         }
         if pc(|| st.cache.contains(&key)) != Ok(got.is_some()) {
             fails.push("C13:contains!=get".into());
         }
+    }
+    // C11: the live entries are a contiguous most-recent suffix of the successful insertions
+    let m = live.iter().position(|x| *x).unwrap_or(n_log);
+    if let Some(j) = (m..n_log).find(|i| !live[*i]) {
+        fails.push(format!("C11:entry{}-evicted-while-older-entry{}-is-retrievable", j, m));
+    }
+    // C11: an evicted entry stays absent (the oldest live entry never moves back)
+    let prev_from = st.live_from;
+    if m < prev_from {
+        fails.push(format!("C11:evicted-entry{}-retrievable-again", m));
+    }
+    st.live_from = m;
+    let live_now = n_log - m;
+    if let Ok(Ok(n)) = &r {
+        // C13: the count is exactly the number of previously retrievable keys made unretrievable
+        let gone = (live_before + 1).saturating_sub(live_now);
+        if *n != gone {
+            fails.push(format!("C13:returned-count-{}-but-{}-keys-became-unretrievable", n, gone));
+        }
+        if gone > 0 {
+            st.ever_evicted = true;
+            // C12 pressure
+            if !(s_before + v.len() > st.cap.saturating_sub(st.lmax.saturating_sub(1))) {
+                fails.push(format!("C12:evicted-without-pressure(S={},x={},L={})", s_before, v.len(), st.lmax));
+            }
+        }
+    } else if live_now != live_before && !inserted_ok {
+        st.ever_evicted = st.ever_evicted || live_now < live_before;
     }
     if st.cache.len() != retrievable {
         fails.push(format!("C13:len={}-retrievable={}", st.cache.len(), retrievable));
